@@ -810,7 +810,35 @@ def remap_by_types(
                             t_node.func.slice,
                             t_node.func.value,
                         )
+            elif isinstance(t_node.func, ast.Lambda):
+                t_node = self.process_called_lambda(t_node)
             return t_node
+
+        def process_called_lambda(self, node: ast.Call) -> ast.Call:
+            "(lambda x, ...: body)(a, ...): follow the body with the parameters typed by the arguments"
+            l_func = node.func
+            assert isinstance(l_func, ast.Lambda)
+            a = l_func.args
+            if (
+                a.posonlyargs or a.kwonlyargs or a.vararg or a.kwarg or a.defaults
+                or node.keywords or len(a.args) != len(node.args)
+                or any(isinstance(x, ast.Starred) for x in node.args)
+            ):
+                return node
+            names = [x.arg for x in a.args]
+            hidden = {n: self._found_types[n] for n in names if n in self._found_types}
+            for n, arg in zip(names, node.args):
+                self._found_types[n] = self.lookup_type(arg)
+            try:
+                new_body = self.visit(l_func.body)
+            finally:
+                for n in names:
+                    self._found_types.pop(n, None)
+                self._found_types.update(hidden)
+            r_node = copy.copy(node)
+            r_node.func = ast.Lambda(l_func.args, new_body)
+            self._found_types[r_node] = self._found_types[node] = self.lookup_type(new_body)
+            return r_node
 
         def visit_Lambda(self, node: ast.Lambda) -> Any:
             "Prevent looking into a lambda until we actually call it"
